@@ -1,0 +1,11 @@
+//go:build verif
+
+package compiler
+
+// Contracts for govc (contract-based deductive verification). Comment-only: this file
+// contributes no declarations and is compiled only with -tags verif.
+
+// ---- operand table (C10) ------------------------------------------------------------------
+//@ func hasOperand
+//@   modifies nothing
+//@   ensures result == hasOp(vm.Opcode(opcode))
